@@ -521,12 +521,14 @@ def gen_reader(dbmap_path, outp, tier):
             ("size", "Vector3", v3(4, 1, 2), "Vector3(%s,%s,%s)" % (f32s(4.0), f32s(1.0), f32s(2.0))),
             ("Color3uint8", "Color3uint8", str(0xFF0A141E), "Color3uint8(10,20,30)"),
         ]},
-        {"class": "ModuleScript", "name": "m", "parent": 0, "props": [
+        # nested under instances of *other* classes: a property name is resolved against the class
+        # of the Item whose Properties element it is in, wherever that element stands
+        {"class": "ModuleScript", "name": "m", "parent": 1, "props": [
             ("Source", "ProtectedString", "<![CDATA[print(\"<hi>\") -- ]] ok]]>", "String:" + hexs(b"print(\"<hi>\") -- ]] ok")),
         ]},
         # database-known Ref properties that are stored under another (serialized) name, one
         # backward and one forward reference
-        {"class": "WeldConstraint", "name": "w", "parent": 0, "props": [
+        {"class": "WeldConstraint", "name": "w", "parent": 2, "props": [
             ("Part0Internal", "Ref", "@1", "Ref:#1"),
             ("Part1Internal", "Ref", "@4", "Ref:#4"),
         ]},
